@@ -38,7 +38,9 @@ type suComp struct {
 
 func init() { components["su"] = &suComp{} }
 
-const suTimeout = 150 * time.Millisecond
+// the server's send timeout is real time: a send held by the harness longer than this ends the
+// subscription whether or not an `expire` was scripted; VERIF_TIME_SCALE stretches it (and `expire` with it)
+var suTimeout = scaled(150 * time.Millisecond)
 
 type suACLKey struct{}
 
@@ -613,7 +615,7 @@ func (c *suComp) Run(args []string) string {
 		quiesce()
 		return "ok"
 	case "expire":
-		time.Sleep(suTimeout + 100*time.Millisecond)
+		time.Sleep(suTimeout + scaled(100*time.Millisecond))
 		quiesce()
 		return "ok"
 	case "view":
